@@ -135,6 +135,19 @@ def _shard(args):
     for _ in range(n_fuzz):
         text, expected, meta = G.gen_docstring(rng, max_blocks=4)
         cases.append(('damaged', G.mutate(rng, text), None, meta))
+    for _ in range(max(2, n_grammar // 40)):
+        # LONG chunks (9..24 one-line statements, no want in between) with inline / block directives at one to three
+        # places, among them positions 7, 8, 15, 16: the part boundaries must come out in ascending order whatever
+        # order a container hands them out in
+        n = rng.randint(9, 24)
+        pos = set(rng.sample(range(n), rng.randint(1, 3))) | set(rng.sample([7, 8, 15, 16, 3, 2, 9], 2))
+        lines = ['Some text first.', '']
+        for i in range(n):
+            if i in pos and rng.random() < 0.4:
+                lines.append('>>> # xdoctest: +ELLIPSIS')
+            lines.append('>>> v%d = %d%s' % (i, i, '  # xdoctest: +ELLIPSIS' if (i in pos and rng.random() < 0.7) else ''))
+        lines += ['>>> print(v0)', '0', '']
+        cases.append(('longchunk', '\n'.join(lines), None, {}))
     docs = [c[1] for c in cases]
     warnings.simplefilter('ignore')
     model = parsercorr.model_parse(docs, lambda lines: driver.run_lines(lines, jobs=1))
